@@ -213,6 +213,8 @@ func (a ThingSlice) Less(i, j int) bool {
 	case int:
 		// Unlikely to get here because all Javascript numbers are floats!
 		return a[i].(int) < a[j].(int)
+	case bool:
+		return !a[i].(bool) && a[j].(bool)
 	default:
 		Log(ERROR, nil, "ThingSlice.Less", "error", "unsupported type", "things", a)
 		return false
